@@ -80,6 +80,8 @@ func c06Run(r *Run) {
 	}
 	paramWriters := map[pw]token.Pos{}
 
+	refPreds := c06RefPredicates(pkgs)
+	r.stat("ref_bound_predicates", len(refPreds))
 	for _, p := range pkgs {
 		info := p.TypesInfo
 		for _, fd := range funcDecls(p) {
@@ -153,33 +155,9 @@ func c06Run(r *Run) {
 					return true
 				})
 			}
-			// guards: positions inside the body of `if X.RefSlotCount > 0`
-			type guard struct {
-				key      string
-				from, to token.Pos
-			}
-			var guards []guard
-			ast.Inspect(fd.Body, func(n ast.Node) bool {
-				is, ok := n.(*ast.IfStmt)
-				if !ok {
-					return true
-				}
-				ast.Inspect(is.Cond, func(m ast.Node) bool {
-					be, ok := m.(*ast.BinaryExpr)
-					if !ok {
-						return true
-					}
-					se, ok := ast.Unparen(be.X).(*ast.SelectorExpr)
-					if !ok || se.Sel.Name != "RefSlotCount" {
-						return true
-					}
-					if (be.Op == token.GTR && exprStr(be.Y) == "0") || (be.Op == token.NEQ && exprStr(be.Y) == "0") || (be.Op == token.GEQ && exprStr(be.Y) == "1") {
-						guards = append(guards, guard{exprStr(se.X), is.Body.Pos(), is.Body.End()})
-					}
-					return true
-				})
-				return true
-			})
+			// guards: a write is guarded when on every path to it the cell's RefSlotCount is known to
+			// be positive (if / switch / early return, directly or through a predicate such as z.isRefBound())
+			guardedAt := c06GuardedWrites(info, fd, refPreds)
 			ast.Inspect(fd.Body, func(n ast.Node) bool {
 				as, ok := n.(*ast.AssignStmt)
 				if !ok {
@@ -193,12 +171,7 @@ func c06Run(r *Run) {
 					og := exprOrigin(se.X)
 					cell := strings.ReplaceAll(exprStr(se.X), " ", "")
 					key := fk + "#cell-write:" + cell
-					guarded := false
-					for _, g := range guards {
-						if g.key == exprStr(se.X) && as.Pos() >= g.from && as.End() <= g.to {
-							guarded = true
-						}
-					}
+					guarded := guardedAt[as.Pos()]
 					switch {
 					case og == oList && guarded:
 						r.ok(key, as.Pos(), "in-place write of a slot-list cell only where RefSlotCount > 0 (explicit reference)")
@@ -336,7 +309,11 @@ func c06Run(r *Run) {
 
 	// ---- SINK ----
 	r.curRule = "C06-SINK"
+	var clonesValueD func(p *packages.Package, fd *ast.FuncDecl, param types.Object, depth int) bool
 	clonesValue := func(p *packages.Package, fd *ast.FuncDecl, param types.Object) bool {
+		return clonesValueD(p, fd, param, 0)
+	}
+	clonesValueD = func(p *packages.Package, fd *ast.FuncDecl, param types.Object, depth int) bool {
 		info := p.TypesInfo
 		// names bound to the parameter's dynamic *ArrayValue: switch x := param.(type) / x, ok := param.(*ArrayValue)
 		bound := map[types.Object]bool{param: true}
@@ -377,6 +354,46 @@ func c06Run(r *Run) {
 			}
 			if f, ok := calleeOf(info, c).(*types.Func); ok && f.Name() == "CloneArrayValue" {
 				if id, ok := ast.Unparen(c.Args[0]).(*ast.Ident); ok && bound[info.Uses[id]] {
+					found = true
+				}
+			}
+			return true
+		})
+		if found || depth >= 2 {
+			return found
+		}
+		// a copying helper: the value is handed to a function that itself copies an *ArrayValue it is given
+		ast.Inspect(fd.Body, func(n ast.Node) bool {
+			c, ok := n.(*ast.CallExpr)
+			if !ok || found {
+				return !found
+			}
+			f, ok := calleeOf(info, c).(*types.Func)
+			if !ok {
+				return true
+			}
+			for i, a := range c.Args {
+				id, ok := ast.Unparen(a).(*ast.Ident)
+				if !ok || !bound[info.Uses[id]] {
+					continue
+				}
+				hp, hd := r.declAnywhere(f)
+				if hd == nil || hd == fd {
+					continue
+				}
+				// only helpers that return the (copied) value
+				sig := f.Type().(*types.Signature)
+				if sig.Results().Len() != 1 {
+					continue
+				}
+				if rt := sig.Results().At(0).Type(); !isArr(rt) && !isNamed(rt, modPath+"/data", "Value") && !isNamed(rt, modPath+"/data", "GetValue") {
+					continue
+				}
+				// … and whose result is what this function goes on to store
+				if !c06ResultUsed(fd, c) {
+					continue
+				}
+				if po := paramObjAt(hp.TypesInfo, hd, i); po != nil && clonesValueD(hp, hd, po, depth+1) {
 					found = true
 				}
 			}
@@ -489,14 +506,24 @@ func c06Run(r *Run) {
 			r.fail("anchor not found: node.(CloneExpression).GetValue")
 		} else {
 			via := false
-			ast.Inspect(fd.Body, func(n ast.Node) bool {
-				if c, ok := n.(*ast.CallExpr); ok {
-					if f, ok := calleeOf(info, c).(*types.Func); ok && f.Name() == "SetProperty" {
-						via = true
+			var scan func(body ast.Node, d int)
+			scan = func(body ast.Node, d int) {
+				ast.Inspect(body, func(n ast.Node) bool {
+					if c, ok := n.(*ast.CallExpr); ok {
+						if f, ok := calleeOf(info, c).(*types.Func); ok {
+							if f.Name() == "SetProperty" {
+								via = true
+							} else if f.Pkg() == np.Types && d < 2 {
+								if hd := declOf(np, f); hd != nil && hd.Body != nil && hd != fd {
+									scan(hd.Body, d+1)
+								}
+							}
+						}
 					}
-				}
-				return true
-			})
+					return true
+				})
+			}
+			scan(fd.Body, 0)
 			key := funcKey(np, fd) + "#properties-through-sink"
 			if via {
 				r.ok(key, fd.Pos(), "clone copies every own property through SetProperty, which copies array values")
@@ -587,4 +614,191 @@ func freshValue(info *types.Info, fd *ast.FuncDecl, e ast.Expr, cell string, dep
 		return n > 0 && all
 	}
 	return false
+}
+
+// c06RefAtom: e (being true when truth) implies X.RefSlotCount > 0; returns the text of X.
+func c06RefAtom(info *types.Info, e ast.Expr, truth bool, preds map[*types.Func]int) (string, bool) {
+	switch x := ast.Unparen(e).(type) {
+	case *ast.BinaryExpr:
+		se, ok := ast.Unparen(x.X).(*ast.SelectorExpr)
+		if !ok || se.Sel.Name != "RefSlotCount" {
+			return "", false
+		}
+		y := exprStr(x.Y)
+		pos := (x.Op == token.GTR && y == "0") || (x.Op == token.NEQ && y == "0") || (x.Op == token.GEQ && y == "1")
+		neg := (x.Op == token.EQL && y == "0") || (x.Op == token.LEQ && y == "0") || (x.Op == token.LSS && y == "1")
+		if (pos && truth) || (neg && !truth) {
+			return exprStr(se.X), true
+		}
+	case *ast.CallExpr:
+		if !truth {
+			return "", false
+		}
+		cal := calleeFunc(info, x)
+		if cal == nil {
+			return "", false
+		}
+		idx, ok := preds[cal]
+		if !ok {
+			return "", false
+		}
+		if idx < 0 {
+			if se, ok := ast.Unparen(x.Fun).(*ast.SelectorExpr); ok {
+				return exprStr(se.X), true
+			}
+		} else if idx < len(x.Args) {
+			return exprStr(x.Args[idx]), true
+		}
+	}
+	return "", false
+}
+
+// c06RefPredicates: functions `return <cond>` whose result being true implies RefSlotCount > 0 of the
+// receiver (-1) or of a parameter (its index).
+func c06RefPredicates(pkgs []*packages.Package) map[*types.Func]int {
+	out := map[*types.Func]int{}
+	for _, p := range pkgs {
+		info := p.TypesInfo
+		for _, fd := range funcDecls(p) {
+			if fd.Body == nil || len(fd.Body.List) != 1 || fd.Type.Results == nil || len(fd.Type.Results.List) != 1 {
+				continue
+			}
+			ret, ok := fd.Body.List[0].(*ast.ReturnStmt)
+			if !ok || len(ret.Results) != 1 {
+				continue
+			}
+			if b, ok := info.TypeOf(ret.Results[0]).Underlying().(*types.Basic); !ok || b.Info()&types.IsBoolean == 0 {
+				continue
+			}
+			var implied []string
+			var walk func(e ast.Expr)
+			walk = func(e ast.Expr) {
+				if be, ok := ast.Unparen(e).(*ast.BinaryExpr); ok && be.Op == token.LAND {
+					walk(be.X)
+					walk(be.Y)
+					return
+				}
+				if x, ok := c06RefAtom(info, e, true, nil); ok {
+					implied = append(implied, x)
+				}
+			}
+			walk(ret.Results[0])
+			fn, _ := info.Defs[fd.Name].(*types.Func)
+			if fn == nil {
+				continue
+			}
+			for _, x := range implied {
+				if fd.Recv != nil && len(fd.Recv.List) == 1 && len(fd.Recv.List[0].Names) == 1 && fd.Recv.List[0].Names[0].Name == x {
+					out[fn] = -1
+				}
+				i := 0
+				for _, f := range fd.Type.Params.List {
+					for _, nm := range f.Names {
+						if nm.Name == x {
+							out[fn] = i
+						}
+						i++
+					}
+				}
+			}
+		}
+	}
+	return out
+}
+
+type c06Guards map[string]bool
+
+// c06GuardedWrites: for every assignment to X.Value in fd, whether X.RefSlotCount > 0 is known on
+// every path reaching it.
+func c06GuardedWrites(info *types.Info, fd *ast.FuncDecl, preds map[*types.Func]int) map[token.Pos]bool {
+	out := map[token.Pos]bool{}
+	seen := map[token.Pos]bool{}
+	h := &Hooks{Info: info}
+	h.Copy = func(s State) State {
+		c := c06Guards{}
+		for k := range s.(c06Guards) {
+			c[k] = true
+		}
+		return c
+	}
+	h.Join = func(a, b State) State {
+		c := c06Guards{}
+		for k := range a.(c06Guards) {
+			if b.(c06Guards)[k] {
+				c[k] = true
+			}
+		}
+		return c
+	}
+	h.Equal = func(a, b State) bool {
+		x, y := a.(c06Guards), b.(c06Guards)
+		if len(x) != len(y) {
+			return false
+		}
+		for k := range x {
+			if !y[k] {
+				return false
+			}
+		}
+		return true
+	}
+	h.Cond = func(e ast.Expr, truth bool, st State) State {
+		if x, ok := c06RefAtom(info, e, truth, preds); ok {
+			st.(c06Guards)[x] = true
+		}
+		return st
+	}
+	kill := func(g c06Guards, name string) {
+		for k := range g {
+			if k == name || strings.HasPrefix(k, name+".") || strings.HasPrefix(k, name+"[") {
+				delete(g, k)
+			}
+		}
+	}
+	h.Stmt = func(stm ast.Stmt, st State) State {
+		g := st.(c06Guards)
+		as, ok := stm.(*ast.AssignStmt)
+		if !ok {
+			return st
+		}
+		for _, l := range as.Lhs {
+			if se, ok := ast.Unparen(l).(*ast.SelectorExpr); ok && se.Sel.Name == "Value" {
+				v := g[exprStr(se.X)]
+				if seen[as.Pos()] {
+					out[as.Pos()] = out[as.Pos()] && v
+				} else {
+					seen[as.Pos()] = true
+					out[as.Pos()] = v
+				}
+				continue
+			}
+			kill(g, exprStr(l))
+		}
+		return st
+	}
+	WalkFunc(h, fd.Body, c06Guards{})
+	return out
+}
+
+// c06ResultUsed: the call's result is not discarded (it is assigned, passed on or returned).
+func c06ResultUsed(fd *ast.FuncDecl, call *ast.CallExpr) bool {
+	used := true
+	ast.Inspect(fd.Body, func(n ast.Node) bool {
+		if es, ok := n.(*ast.ExprStmt); ok && ast.Unparen(es.X) == ast.Expr(call) {
+			used = false
+		}
+		if as, ok := n.(*ast.AssignStmt); ok && len(as.Rhs) == 1 && ast.Unparen(as.Rhs[0]) == ast.Expr(call) {
+			all := true
+			for _, l := range as.Lhs {
+				if id, ok := l.(*ast.Ident); !ok || id.Name != "_" {
+					all = false
+				}
+			}
+			if all {
+				used = false
+			}
+		}
+		return true
+	})
+	return used
 }
